@@ -90,20 +90,27 @@ theorem cUpTo_bounds {T : List Tx} {cs : List CTx} {c : Nat} {m : Mem} (hlog : L
     exact hlog.maxle tx htx
 
 /-- segments, tree and runs after the manifest of a compaction -/
+theorem frontier_ge2 {N : List Nat} {c : Nat} {p : PImg} (h : PagerOK N c p) : 2 ≤ frontier p := by
+  have := h.booted.bm
+  have := h.booted.nextPage
+  unfold frontier; omega
+
 theorem storeOK_compact {T : List Tx} {cs cs' : List CTx} {p0 pF : PImg} {covered : List Nat} {n : Nat} {m : Mem}
-    (hst : StoreOK T cs p0) (hcg : CG p0 (scan cs).proot (allProps T) covered n pF)
+    (hst : StoreOK T cs p0) (hcg : CG p0 (scan cs).proot (allProps T) covered (frontier p0) n pF)
     (h1 : ∀ q ∈ allProps T, q ∈ (logRuns (scan cs).ckpt cs).flatMap (·.props) ∨ q ∈ covered)
     (h2 : (scan cs).proot = 0 → covered = [])
     (mruns : m.runs = logRuns (scan cs).ckpt cs) (mroot : m.proot = (scan cs).proot) (mptop : m.ptop = (scan cs).ptop)
-    (k0 root : Nat) (top : Bool) (hk0 : k0 = p0.hdr.nextPage)
+    (k0 root : Nat) (top : Bool) (hk0 : k0 = frontier p0)
     (hseg : ∃ s, segFind pF k0 = some s ∧ s.edges = cEdges m)
     (hsame : cProps m = [] → (root, top) = (m.proot, m.ptop))
     (htree : cProps m ≠ [] → root ≠ 0 ∧ top = false ∧ ∃ t, treeFind pF root = some t ∧ TreeOK (allProps T) (covered ++ cProps m) t)
     (hsegs : (scan cs').segs = k0 :: (scan cs).segs) (hroot : (scan cs').proot = root) (htop : (scan cs').ptop = top)
     (hruns : logRuns (scan cs').ckpt cs' = []) : StoreOK T cs' pF := by
-  have hold : ∀ k ∈ (scan cs).segs, segFind pF k = segFind p0 k := fun k hk => hcg.segOld k (hst.segLt k hk)
+  have hold : ∀ k ∈ (scan cs).segs, segFind pF k = segFind p0 k := fun k hk =>
+    hcg.segOld k (by have := hst.segLt k hk; unfold frontier; omega)
   obtain ⟨s, hs, hse⟩ := hseg
-  refine ⟨?_, fun s hs => Nat.lt_of_lt_of_le (hcg.segKeys s hs) hcg.np, fun t ht => Nat.lt_of_lt_of_le (hcg.treeKeys t ht) hcg.np,
+  refine ⟨?_, fun s hs => ⟨Nat.lt_of_lt_of_le (hcg.segKeys s hs) hcg.np, Nat.lt_of_lt_of_le (hcg.segKeys s hs) hcg.bmlo⟩,
+    fun t ht => ⟨Nat.lt_of_lt_of_le (hcg.treeKeys t ht) hcg.np, Nat.lt_of_lt_of_le (hcg.treeKeys t ht) hcg.bmlo⟩,
     ?_, by rw [hruns]; intro q hq; simp at hq, ?_, ?_⟩
   · intro k hk
     rw [hsegs] at hk
@@ -183,14 +190,14 @@ theorem inv_after_pages {cfg : Cfg} {T : List Tx} {fs : FS} {m : Mem} {cs : List
   obtain ⟨hw, hd, hr⟩ := steps_pager_wal _ pp.pager.facts.2 fs
   obtain ⟨n, hcg⟩ := pp.cg
   rw [h.mroot] at hcg
-  have hst := hcg.storeOK h.store rfl h1 h2
+  have hst := hcg.storeOK h.store (Nat.le_refl _) rfl h1 h2
   have hold : ∀ k ∈ (scan cs).segs, segFind (fs.steps (ioSteps (pagesA cfg m fs.pv).1)).pd k = segFind fs.pd k :=
-    fun k hk => hcg.segOld k (h.store.segLt k hk)
+    fun k hk => hcg.segOld k (by have := h.store.segLt k hk; unfold frontier; omega)
   exact
     { pj := by rw [pp.pj]; intro e he; simpa using he
       wal := ⟨by rw [hr]; exact h.wal.ren, by rw [hd, hw]; exact h.wal.wdur, fun k hk => by rw [hw]; exact h.wal.stable k (by rw [← hd]; exact hk)⟩
       log := h.log
-      pager := hcg.pagerOK h.pager
+      pager := hcg.pagerOK h.pager (frontier_ge2 h.pager)
       store := hst
       full := by rw [hcg.hdr.len]; exact h.full
       mpm := pp.hdr.symm
@@ -237,7 +244,7 @@ theorem compact_new {cfg : Cfg} {T : List Tx} {fs : FS} {m : Mem} {cs : List CTx
     (pagesA cfg m fs.pv).2.2.2.1 (pagesA cfg m fs.pv).2.2.2.2 (cUpTo m) (by rw [h.mepoch]; omega) h.mtxid (Nat.le_of_lt b1) b2
   obtain ⟨n, hcg⟩ := pp.cg
   rw [h.mroot] at hcg
-  refine ⟨hsc, hruns, c', hlog', (hcg.pagerOK h.pager).raise (by rw [hcg.hdr.len, h.full]; exact hc'), ?_⟩
+  refine ⟨hsc, hruns, c', hlog', (hcg.pagerOK h.pager (frontier_ge2 h.pager)).raise (by rw [hcg.hdr.len, h.full]; exact hc'), ?_⟩
   have htree' : cProps m ≠ [] → (pagesA cfg m fs.pv).2.2.2.1 ≠ 0 ∧ (pagesA cfg m fs.pv).2.2.2.2 = false ∧
       ∃ t, treeFind (fs.steps (ioSteps (pagesA cfg m fs.pv).1)).pd (pagesA cfg m fs.pv).2.2.2.1 = some t ∧
         TreeOK (allProps T) (covered ++ cProps m) t := pp.tree
@@ -309,7 +316,7 @@ theorem compact_safe {cfg : Cfg} {T : List Tx} {fs : FS} {m : Mem} {cs : List CT
     have hst : WalStable cs (fs.steps ((ioSteps (pagesA cfg m fs.pv).1).take n)) :=
       ⟨by rw [hr]; exact h.wal.ren, by rw [hd, hw]; exact h.wal.wdur, fun k hk => by rw [hw]; exact h.wal.stable k (by rw [← hd]; exact hk)⟩
     obtain ⟨k, hk, hW⟩ := hst.crashW mode
-    exact ⟨T, by simp, cs, c, by rw [hW]; exact hst.stable k hk, h.log, hcg.pagerOK h.pager, hcg.storeOK h.store rfl h1 h2⟩
+    exact ⟨T, by simp, cs, c, by rw [hW]; exact hst.stable k hk, h.log, hcg.pagerOK h.pager (frontier_ge2 h.pager), hcg.storeOK h.store (Nat.le_refl _) rfl h1 h2⟩
   apply safeAlong_append sa1
   -- (2) tail cut
   have hinv := inv_after_pages h pp h1 h2
